@@ -36,7 +36,10 @@ RULE = ("a case is one (lexicon index, query word): for it every maxdist 0..3 an
         "Searcher.suggest, and compared with brute-force OSA / Damerau-Levenshtein / plain Levenshtein distances computed "
         "by the harness. Non-trivial: for some (d,p) the expected term set is neither empty nor the whole lexicon. "
         "Distinct = distinct (block, alphabet, segment count, field kind, len(word), word-in-lexicon, per-d expected-set "
-        "size signature).")
+        "size signature). Population A (verdict weight, counters popA.*): the word is not a term and the lexicon holds no term whose "
+        "plain-Levenshtein and Damerau distances to the word differ within maxdist on a single segment - any disagreement there is a "
+        "violation; population B (the rest, and block SP = TEXT(spelling=True) with a stemming analyzer) is judged through a second "
+        "oracle that reproduces the listed mechanism exactly.")
 ASSUMPTIONS = [
     "documented distance = Damerau-Levenshtein; where the restricted (OSA, what whoosh.support.levenshtein.distance computes) and "
     "the unrestricted Damerau-Levenshtein distance differ (needs >= 3 letters, e.g. 'ca'/'abc') any result between the two sets is accepted, "
@@ -82,16 +85,22 @@ def e2_units(tier):
 
 
 FLOORS = {
-    "quick": {"e1.units": e1_units("quick"), "e2.units": e2_units("quick"), "e1.pairs": 30 * 31 * 16 * 4,
-              "sampled.cases": 60, "spelling.cases": 20, "spelling.tw.evals": 600, "spelling.fuzzy.evals": 600, "tw.single.evals": 5000, "tw.multi.evals": 5000, "agree.evals": 4000,
-              "fuzzy.evals": 1500, "suggest.evals": 1500, "popA.tw.single.evals": 1500, "popA.suggest.evals": 400,
-              "suggest.order.pairs": 1000, "suggest.cut.evals": 200, "alphabet.multibyte.cases": 10,
-              "reach.transposition-sensitive": 100, "reach.prefix>len": 300, "layout.multi.built": 20},
-    "thorough": {"e1.units": e1_units("thorough"), "e2.units": e2_units("thorough"), "e1.pairs": 62 * 63 * 16 * 4,
-                 "sampled.cases": 500, "spelling.cases": 200, "spelling.tw.evals": 6000, "spelling.fuzzy.evals": 6000, "tw.single.evals": 100000, "tw.multi.evals": 100000, "agree.evals": 100000,
-                 "fuzzy.evals": 10000, "suggest.evals": 10000, "popA.tw.single.evals": 30000, "popA.suggest.evals": 3000,
-                 "suggest.order.pairs": 10000, "suggest.cut.evals": 1000, "alphabet.multibyte.cases": 80,
-                 "reach.transposition-sensitive": 1000, "reach.prefix>len": 3000, "layout.multi.built": 200},
+    "quick": {"e1.units": e1_units("quick"), "e2.units": e2_units("quick"), "e1.pairs": 30 * 31 * 16 * 4, "e2.subsets": 63,
+              "sampled.cases": 170, "spelling.cases": 25, "spelling.tw.evals": 1500, "spelling.fuzzy.evals": 1500,
+              "spelling.suggest.evals": 1500, "tw.single.evals": 24000, "tw.multi.evals": 22000, "agree.evals": 22000,
+              "fuzzy.evals": 16000, "fuzzy.nonempty": 9000, "suggest.evals": 20000, "suggest.nonempty": 12000, "correct.evals": 13000,
+              "correct.replaced": 3000, "popA.tw.single.evals": 23000, "popA.tw.multi.evals": 22000, "popA.fuzzy.evals": 15000,
+              "popA.suggest.evals": 12000, "suggest.order.pairs": 13000, "suggest.cut.evals": 2500, "alphabet.multibyte.cases": 50,
+              "alphabet.abc.cases": 45, "alphabet.edge.cases": 25, "reach.transposition-sensitive": 1200, "reach.osa!=dl": 200,
+              "reach.prefix>len": 12000, "layout.multi.built": 250},
+    "thorough": {"e1.units": e1_units("thorough"), "e2.units": e2_units("thorough"), "e1.pairs": 62 * 63 * 16 * 4, "e2.subsets": 16383,
+                 "sampled.cases": 2300, "spelling.cases": 300, "spelling.tw.evals": 20000, "spelling.fuzzy.evals": 20000,
+                 "spelling.suggest.evals": 20000, "tw.single.evals": 1500000, "tw.multi.evals": 1500000, "agree.evals": 1500000,
+                 "fuzzy.evals": 230000, "fuzzy.nonempty": 130000, "suggest.evals": 280000, "suggest.nonempty": 170000,
+                 "correct.evals": 190000, "correct.replaced": 50000, "popA.tw.single.evals": 1400000, "popA.tw.multi.evals": 1500000,
+                 "popA.fuzzy.evals": 220000, "popA.suggest.evals": 180000, "suggest.order.pairs": 160000, "suggest.cut.evals": 35000,
+                 "alphabet.multibyte.cases": 700, "alphabet.abc.cases": 700, "alphabet.edge.cases": 350,
+                 "reach.transposition-sensitive": 100000, "reach.osa!=dl": 3000, "reach.prefix>len": 900000, "layout.multi.built": 8000},
 }
 
 
